@@ -68,7 +68,12 @@ def build(rng: random.Random, combo: tuple, transport: str, order: str) -> dict:
             rep[0]["msgs"] = list(rep[0]["msgs"]) + tmsgs
         else:
             device["replies"][last_req] = [{"msgs": [last_msg] + tmsgs}]
-    steps = [{"do": "connect", "login": login}] if rng.random() < 0.6 else [{"do": "start"}, {"do": "finish", "login": login}]
+    if expected is not None and rng.random() < 0.15:
+        # the expected name is configured on the client between the two connect phases (public setter)
+        client.pop("expected_name", None)
+        steps = [{"do": "start"}, {"do": "set_expected_name", "name": expected}, {"do": "finish", "login": login}]
+    else:
+        steps = [{"do": "connect", "login": login}] if rng.random() < 0.6 else [{"do": "start"}, {"do": "finish", "login": login}]
     steps.append({"do": "sleep", "d": 0.5})
     steps.append({"do": "disconnect"})
     return {
